@@ -210,4 +210,3 @@ Proof.
   unfold r_union. rewrite A1, A2, A3, A4, A5, A6, A7, A8, A9, Hc, Hm, Hp. reflexivity.
 Qed.
 End Codec.
-Print Assumptions C09_union_roundtrip.
